@@ -79,6 +79,8 @@ from btclib.script.engine import verify_input, verify_transaction
 from btclib.script.engine.flags import ALL_FLAGS, NO_FLAGS, ScriptFlag
 from btclib.script.script_pub_key import ScriptPubKey
 from btclib.script.witness import Witness
+from copy import deepcopy
+
 from btclib.tx.tx import Tx
 from btclib.tx.tx_out import TxOut
 
@@ -348,6 +350,22 @@ def _json(ctx: Ctx, j: Judge, b: go.Built, obj: Any, cv: bool) -> None:
     site = f"{b.name}.from_dict/{cls}"
     ok, back = j.call(site, lambda: codec.from_dict(json.loads(text), cv))
     j.check(P5, "json-round-trip", lambda: ok and back == obj, lambda: f"from_dict(json(to_dict(x))) {'raised ' + repr(back) if not ok else '!= x'} for x = {b.raw.hex()[:300]}", site)
+    if b.name in ("TxOut", "Tx") and ctx.ch.draw(2, "json.network?"):
+        # the same output on another network: nothing on the wire says which, the JSON form does
+        from btclib.script.script_pub_key import ScriptPubKey  # noqa: PLC0415
+
+        network = ctx.ch.pick(["testnet", "regtest", "signet", "testnet4"], "json.network")
+        rehome = lambda o: TxOut(o.value, ScriptPubKey(o.script_pub_key.script, network), check_validity=False)  # noqa: E731
+        other = deepcopy(obj)
+        if b.name == "TxOut":
+            other = rehome(other)
+        else:
+            other.vout[:] = [rehome(o) for o in other.vout]
+        ok, text2 = j.call(f"{b.name}.to_dict/other-network", lambda: json.dumps(codec.to_dict(other, cv)))
+        if ok:
+            ok, back = j.call(f"{b.name}.from_dict/other-network", lambda: codec.from_dict(json.loads(text2), cv))
+            j.check(P5, "json-round-trip", lambda: ok and back == other, lambda: f"{network}: from_dict(json(to_dict(x))) {'raised ' + repr(back) if not ok else '!= x'} for x = {b.raw.hex()[:200]}", f"{b.name}.from_dict/other-network")
+            ctx.probe("json-other-network")
     if ctx.cfg.get("faults") and cv:
         _json_walk(ctx, j, b, text, cv)
 
